@@ -17,7 +17,7 @@ FILES = {
     "internal/verifdrv/vfd/term.go": "vfd/term.go",
     "PVM/zz_verif_blob_test.go": "blob/zz_verif_blob_test.go",
 }
-CASE_KEYS = ("tag", "kind", "blob", "al", "gas", "pc")
+CASE_KEYS = ("tag", "kind", "blob", "al", "gas", "pc", "want")
 
 
 def flips(ctx, base, n):
@@ -32,7 +32,7 @@ def flips(ctx, base, n):
         for _ in range(1 + rng.n(3)):
             i = rng.n(len(b))
             b[i] ^= 1 << rng.n(8)
-        c["blob"], c["tag"] = b, "flip"
+        c["blob"], c["tag"], c["want"] = b, "flip", -1
         c["gas"] = rng.pick([1, 50, 10000])
         out.append(c)
     return out
@@ -43,7 +43,7 @@ def shape_fill(c, **kw):
     r.update({k: c[k] for k in CASE_KEYS})
     if c["kind"] == "std":
         r["init"] = {"ok": False, "panic": ""}
-        r["psi"] = {"kind": "none", "used": 0, "panic": ""}
+        r["psi"] = {"kind": "none", "used": 0, "outlen": 0, "panic": ""}
     else:
         r["deblob"] = {"ok": False, "panic": ""}
         r["run"] = {"ran": False, "kind": "none", "used": 0, "panic": ""}
@@ -135,7 +135,7 @@ def run(ctx):
                         "host calls are absent (nil table -> WHAT) in Psi_M runs; gas <= 10^4; watchdog = 30 s of process CPU time per case (120 s when the case is re-run alone); 3 GiB heap watchdog"]
     binp = vf.build_driver(ctx, "blob", "./PVM", FILES)
     if ctx.replay:
-        cases = [{k: json.loads(ln)[k] for k in CASE_KEYS} for ln in vf.read_lines(ctx.replay)]
+        cases = [{k: json.loads(ln).get(k, -1) for k in CASE_KEYS} for ln in vf.read_lines(ctx.replay)]
     else:
         casep0 = vf.gen_cases(ctx, "ProgramBlob_Gen", {"Tier": '"%s"' % ctx.tier}, timeout=900)
         gen = [json.loads(ln) for ln in vf.read_lines(casep0)]
